@@ -24,7 +24,7 @@ SPECS = {
               "certificates stay disjoint and activation keeps every issued certificate (with the counter-example for the originally pinned tree, F04b). "
               "Tie: every stored command of random multi-level histories is replayed through the model inside Coq - apply, listener and key-command "
               "prediction must reproduce the observed CertAuth and CaObjects states - and the executable invariants (mirror of key states and object "
-              "sets, products = published set, disjointness, used keys have certificates) are evaluated on the implementation states."),
+              "sets, products = published set, disjointness, used keys have certificates) are evaluated on the implementation states." " Second scenario (keystates): the implementation's KeyState in every key state with every combination of open certificate requests (built from real keys) is handed to append_keyroll_activate / revoke and compared with the model in Coq (ca/KeyCheck.v) - states a synchronous parent never produces are reached this way."),
         note=NOTE + "Outside: interleavings at the level of OS threads (C18); delayed TA signer responses are exercised only through the embedded signer.",
         technique="Coq proof over CA key/object-set model (case analysis + invariants) + event-level correspondence evaluated in Coq"),
     "C03": dict(
@@ -35,7 +35,7 @@ SPECS = {
               "and to re-publication, per key, for as long as that key has a set. Tie: event-level correspondence of the shared CA scenario (the model "
               "listener must reproduce the observed published names, serials, revocation lists and numbers) plus the executable form of the theorem "
               "evaluated on the before/after object stores of the implementation; the harness additionally decodes every CRL and compares its entry "
-              "count with the stored revocations."),
+              "count with the stored revocations." " Second scenario (keystates): KeyState::revoke compared with ks_revoke_keys in every key state (every certified key of a class that goes gets a revocation request)."),
         note=NOTE + "Removal from the repository after the next synchronisation is repository content (C01/C10); here the CA-side object sets are decided.",
         technique="Coq proof of a revocation-coverage relation over all object-set operations + event-level correspondence evaluated in Coq"),
     "C14": dict(
@@ -53,12 +53,13 @@ SPECS = {
 TEMPLATE = '''"""{pid} check configuration (shared CA scenario `cacore`). Generated by lib/gen_ca_props.py."""
 PROP = {{
     'translators': [],
-    'coq_targets': ['props/{pid}.vo', 'ca/CaCheck.vo', 'ca/CaOracleProofs.vo'],
+    'coq_targets': ['props/{pid}.vo', 'ca/CaCheck.vo', 'ca/CaOracleProofs.vo', 'ca/KeyCheck.vo'],
     'props_file': 'props/{pid}.v',
     'checker_vo': 'ca/CaCheck.vo',
     'scenario': 'cacore',
     'evals': {evals!r},
     'info_evals': {info!r},
+    'extra_scenarios': {xs!r},
     'extra': {{'quick': {{'histories': 8, 'ops': 60, 'evals': {ev!r}{xtra}}}, 'thorough': {{'histories': 96, 'ops': 150, 'evals': {ev!r}{xtra}}}}},
     'replay_header': "From KV Require Import base.Tac ca.Ca ca.CaCheck ca.CaOracleProofs.\\nOpen Scope N_scope.",
     'replay_footer': {footer!r},
@@ -77,7 +78,7 @@ META = {{
 
 for pid, sp in SPECS.items():
     footer = "\n".join("Eval vm_compute in (failing %s base_index cases)." % e for e in sp["evals"])
-    txt = TEMPLATE.format(pid=pid, evals=sp["evals"], info=sp.get("info", []), ev=",".join(sp["evals"] + sp.get("info", [])), footer=footer, assump=COMMON_ASSUMP,
+    txt = TEMPLATE.format(pid=pid, evals=sp["evals"], info=sp.get("info", []), xs=([{'scenario': 'keystates', 'evals': ['k_ok']}] if pid in ("C03", "C04") else []), ev=",".join(sp["evals"] + sp.get("info", [])), footer=footer, assump=COMMON_ASSUMP,
                           text=sp["text"], note=sp["note"], technique=sp["technique"], xtra=(", 'slash': 1" if pid == "C14" else ""))
     open(os.path.join(HERE, "props.d", pid + ".py"), "w").write(txt)
 print("written", sorted(SPECS))
